@@ -134,7 +134,7 @@ func PAddrPort(a netip.AddrPort) rm.Val {
 	return rm.Val{K: rm.AddrPort, B: b[:], U: uint64(a.Port())}
 }
 
-func pb(b bool) rm.Val         { return rm.BoolVal(b) }
+func pb(b bool) rm.Val              { return rm.BoolVal(b) }
 func pu(k rm.Kind, u uint64) rm.Val { return rm.Val{K: k, U: u} }
 
 func PDevice(d *types.Device) rm.Vals {
